@@ -1,4 +1,5 @@
 mod c01;
+mod c08;
 mod c05;
 mod c10;
 mod c11;
@@ -27,6 +28,7 @@ fn main() {
     match argv[1].as_str() {
         "c01" => c01::main(&args),
         "c05" => c05::main(&args),
+        "c08" => c08::main(&args),
         "c10" => c10::main(&args),
         "c12" => c12::main(&args),
         "c15" => c15::main(&args),
